@@ -106,6 +106,23 @@ def run_unit(root, module, prop, tier, seed, rebaseline=False):
     rec["baseline_present"] = bool(base)
 
     r = verus.run(path, unit.verus_args, timeout=900 if tier == "thorough" else 420)
+    if r["status"] == "compile-error":
+        # a call to a function the unit does not contain: try to pull the helper in (spec + exec form) and run again
+        try:
+            u2, helpers = _auto_helpers(unit, root, r)
+            if u2 is not None:
+                text2, meta2 = gen.generate(u2, root, rules)
+                with open(path, "w") as f:
+                    f.write(text2)
+                r2 = verus.run(path, unit.verus_args, timeout=900 if tier == "thorough" else 420)
+                if r2["status"] != "compile-error":
+                    text, meta, r = text2, meta2, r2
+                    rec["auto_helpers"] = helpers
+                    rec["items"] = meta["items"]
+                    rec["rewrites"] = meta["rewrites"]
+                    rec["assumptions"] = scan_assumptions(text)
+        except Exception:
+            pass
     attempts = [r]
     # retry policy: rlimit / flaky -> one retry with larger rlimit and a different seed
     if r["status"] == "verification-failed" and (any(e.get("kind") == "rlimit" for e in r["errors"]) or (base and not changed)):
@@ -122,6 +139,89 @@ def run_unit(root, module, prop, tier, seed, rebaseline=False):
     classify_unit(rec, r, meta, base, changed, text)
     rec["wall_s"] = round(time.time() - t0, 2)
     return rec
+
+
+MISSING_RE = [re.compile(r"cannot find function `(\w+)` in this scope"),
+              re.compile(r"no method named `(\w+)` found for"),
+              re.compile(r"no function or associated item named `(\w+)` found for")]
+
+
+def _auto_helpers(unit, root, r):
+    """The generated file does not compile because it calls a function that is not in the unit (typically a helper a change
+    introduced).  Look the function up in the repository files the unit's items come from; a unique, loop-free definition is added
+    to the unit TWICE: as `<name>_spec` (the same body as an open spec fn) and as the exec fn with `ensures r == <name>_spec(..)`,
+    so callers see exactly what it computes.  Returns (new_unit, [names]) or (None, [])."""
+    import copy as _copy
+    names = []
+    for d in r.get("diagnostics", []):
+        if d["level"] != "error":
+            continue
+        for rx in MISSING_RE:
+            mt = rx.search(d["msg"])
+            if mt and mt.group(1) not in names:
+                names.append(mt.group(1))
+    if not names:
+        return None, []
+    files = []
+    for it in unit.items:
+        f = getattr(it, "file", None)
+        if f and f not in files:
+            files.append(f)
+    # sibling files of the same directory are searched too (a helper method on a type defined next door)
+    repo = os.environ.get("VERIF_REPO", "/repo")
+    extra = []
+    for f in list(files):
+        dname = os.path.dirname(os.path.join(repo, f))
+        if os.path.isdir(dname):
+            for fn_ in sorted(os.listdir(dname)):
+                rel = os.path.join(os.path.dirname(f), fn_)
+                if fn_.endswith(".rs") and rel not in files and rel not in extra:
+                    extra.append(rel)
+    new_items = []
+    for name in names:
+        found = []
+        for f in files + extra:
+            try:
+                src = gen.load_source(f)
+            except Exception:
+                continue
+            for mt in re.finditer(r"(?<![A-Za-z0-9_])fn\s+" + re.escape(name) + r"\b", src.m):
+                cont = None
+                for hdr, b, e in src.impl_blocks():
+                    if b < mt.start() < e:
+                        mh = re.match(r"impl(?:<[^>]*>)?\s+(?:[\w:]+\s+for\s+)?([A-Za-z_]\w*)", hdr)
+                        cont = mh.group(1) if mh else None
+                found.append((f, cont))
+        if len(found) != 1:
+            return None, []
+        f, cont = found[0]
+        src = gen.load_source(f)
+        try:
+            s0, b0, e0 = src.find_fn(name, cont)
+        except Exception:
+            return None, []
+        sig = src.text[s0:b0]
+        mp = re.search(r"\((.*)\)", sig, re.S)
+        params = []
+        if mp:
+            for part in re.split(r",(?![^<>()]*[>)])", mp.group(1)):
+                part = part.strip()
+                if not part:
+                    continue
+                if part in ("&self", "self", "&mut self"):
+                    continue
+                params.append(part.split(":")[0].strip().replace("mut ", ""))
+        if "&mut" in sig or "->" not in sig:
+            return None, []
+        call = (f"self.{name}_spec(" if cont and "self" in sig else f"{name}_spec(") + ", ".join((("*" + p_) if re.search(r"\b" + re.escape(p_) + r"\s*:\s*&(?!str)", sig) else p_) for p_ in params) + ")"
+        new_items.append(gen.Fn(file=f, name=name, container=cont, as_spec=True, rules=list(unit.rules)))
+        new_items.append(gen.Fn(file=f, name=name, container=cont, ret="r", contract=f"ensures r == {call},", rules=list(unit.rules),
+                                obligation="(helper added automatically: the function computes what its own body says)"))
+    u2 = _copy.copy(unit)
+    items = list(unit.items)
+    k = next((i for i, it in enumerate(items) if isinstance(it, gen.Fn)), len(items))
+    u2.items = items[:k] + new_items + items[k:]
+    return u2, names
 
 
 def fn_for_line(meta, line):
